@@ -10,6 +10,8 @@ def strip_comments(src):
 
 def parse_defs(root="/repo/saito-core/src"):
     structs, enums = {}, {}
+    global TYPE_MODULES
+    TYPE_MODULES = {}
     for path in glob.glob(os.path.join(root, "**", "*.rs"), recursive=True):
         if "/util/test/" in path:
             continue
@@ -23,6 +25,7 @@ def parse_defs(root="/repo/saito-core/src"):
                 if fm:
                     fields.append((fm.group(1), " ".join(fm.group(2).split())))
             structs.setdefault(m.group(1), fields)
+            TYPE_MODULES.setdefault(m.group(1), os.path.basename(path)[:-3])
         for m in re.finditer(r"\b(?:pub(?:\([^)]*\))? )?enum (\w+)(?:<[^>]*>)?\s*\{", src):
             body, _ = _braced(src, m.end() - 1)
             variants, nxt = [], 0
@@ -35,6 +38,7 @@ def parse_defs(root="/repo/saito-core/src"):
                     variants.append((vm.group(1), nxt))
                     nxt += 1
             enums.setdefault(m.group(1), variants)
+            TYPE_MODULES.setdefault(m.group(1), os.path.basename(path)[:-3])
     return structs, enums
 
 
@@ -89,3 +93,5 @@ def _split_top(s):
     if "".join(cur).strip():
         out.append("".join(cur))
     return out
+
+TYPE_MODULES = {}
